@@ -783,7 +783,10 @@ where
     #[must_use]
     #[inline(always)]
     fn select(&self, symbol: Self::Item, i: usize) -> Option<usize> {
-        if symbol.as_() >= self.codes_encode.len()
+        // There are at most `n` occurrences of any symbol; this also keeps
+        // `rank_b + result` below from overflowing.
+        if i >= self.n
+            || symbol.as_() >= self.codes_encode.len()
             || self.codes_encode[symbol.as_() as usize].len == 0
         {
             return None;
